@@ -20,6 +20,17 @@ def ops : FOps (Img (Cx Float)) (Nat × Nat) :=
 
 def sincF (x : Float) : Float := if x == 0.0 then 1.0 else Float.sin (piF * x) / (piF * x)
 
+/-- `jinc(x) = J1(x)/x` by its power series `Σ (-1)^k (x/2)^(2k) / (2 · k! (k+1)!)` (60 terms: exact to rounding for |x| ≤ 8,
+the harness keeps pinhole radii that small), 0.5 at 0 -/
+def jincF (x : Float) : Float := Id.run do
+  let q := (x / 2.0) * (x / 2.0)
+  let mut term : Float := 0.5
+  let mut s : Float := 0.5
+  for k in [1:60] do
+    term := -(term * q) / (Float.ofNat k * Float.ofNat (k + 1))
+    s := s + term
+  return s
+
 def parseFloats (l : List String) : Option (Array Float) := (l.mapM parseFloatBits?).map List.toArray
 
 def realImg (m n : Nat) (d : Array Float) (off : Nat) : Img (Cx Float) :=
@@ -48,6 +59,8 @@ def tfGrid (m n : Nat) (shift : Bool) (dx : Float) (kind : String) (p1 p2 : Floa
   | "smear" => some (mk fun fx fy => smearFt sincF fx fy p1 p2 (p1 != 0.0) (p2 != 0.0))
   | "pixel" => some (mk fun fx fy => pixelFt sincF fx fy p1 p2)
   | "olpf" => some (mk fun fx fy => olpfFt Float.cos fx fy p1 p2)
+  | "slit" => some (mk fun fx fy => slitFt sincF fx fy p1 p2 (p1 != 0.0) (p2 != 0.0))
+  | "pinhole" => some (mk fun fx fy => pinholeFt jincF piF (Float.sqrt (fx * fx + fy * fy)) p1)
   | "fx" => some (mk fun fx _ => 1.0 / (1.0 + p1 * fx * fx + p2 * fx))
   | "fy" => some (mk fun _ fy => 1.0 / (1.0 + p1 * fy * fy + p2 * fy))
   | "ft" => some (mk fun fx fy => 1.0 + p1 * Float.cos (Float.atan2 fy fx) + p2 * Float.sin (Float.atan2 fy fx))
@@ -69,6 +82,13 @@ def parseCalls : Nat → List String → Option (List (String × Float × Float)
 
 def step (t : List String) : String :=
   match t with
+  | "difflim" :: rest =>
+      -- difflim fno wavelength f1 f2 ... : diffraction_limited_mtf at each frequency
+      match parseFloats rest with
+      | some d =>
+          if d.size < 2 then "bad-op" else
+          fmtList fmtFloat ((d.toList.drop 2).map fun f => difflimMtf Float.acos Float.sqrt Float.abs piF f d[1]! d[0]!)
+      | none => "bad-op"
   | "conv" :: ms :: ns :: rest =>
       match ms.toNat?, ns.toNat?, parseFloats rest with
       | some m, some n, some d =>
